@@ -848,7 +848,7 @@ def repair_omitted_tail_rule(ctx, P, rule):
                     any(e_.k == 'decl' and e_.name == x['name'] and e_.e is not None and any(m.get('field') == 'timestamp' for m in walk(e_.e) if m.get('op') == 'member') for e_ in fn.events()):
                 guards.append((b, y['name']))
     if not guards:
-        raise AnalysisBroken('jls_core_repair_fsr: no compare of a chunk sample id with the expected id')
+        return      # no compare of a chunk sample id with an expected id at all: C03.p reports that
     for b, exp in guards:
         # values that flow into the expected id (directly or through one local)
         srcs = []
